@@ -36,6 +36,8 @@ pub enum Case {
     Valid { u: UrdfSpec, q: [f64; 6] },
     /// 0: a joint missing; 1: conflicting duplicate (origin); 2: truncated document; 3: non-numeric origin; 4: duplicate with the axis reversed; 5: duplicate with other limits
     Invalid { u: UrdfSpec, kind: u8, which: u8 },
+    /// one document with two different robots under different explicit joint names; extracted a, b, a again
+    Cell { a: UrdfSpec, b: UrdfSpec },
     Mutated { u: UrdfSpec, edits: Vec<(u16, u8, u8)> },
     Bytes { data: Vec<u8> },
 }
@@ -163,6 +165,24 @@ pub fn render(u: &UrdfSpec) -> Rendered {
     Rendered { xml, names: names_arr, expected_lengths, expected_from: from, expected_to: to }
 }
 
+/// The extraction clauses proper: lengths, signs, limits, dof.
+fn verify_extraction(p: &rs_opw_kinematics::urdf::URDFParameters, r: &Rendered, u: &UrdfSpec, what: &str) -> Res {
+    let g = [p.a1, p.a2, p.b, p.c1, p.c2, p.c3, p.c4];
+    let names = ["a1", "a2", "b", "c1", "c2", "c3", "c4"];
+    for k in 0..7 {
+        let w = r.expected_lengths[k];
+        ensure!((g[k] - w).abs() <= 1e-12 * (1.0 + w.abs()), "extraction returns the generating parameters", "{}{} = {} expected {}\n{}", what, names[k], g[k], w, r.xml);
+    }
+    ensure!(p.sign_corrections == u.signs, "extraction returns the axis-derived sign corrections", "{}{:?} expected {:?}\n{}", what, p.sign_corrections, u.signs, r.xml);
+    for k in 0..6 {
+        // (1e-12 relative: the conversion of written degrees to radians is not promised to the last bit)
+        let close = |a: f64, b: f64| (a - b).abs() <= 1e-12 * (1.0 + b.abs());
+        ensure!(close(p.from[k], r.expected_from[k]) && close(p.to[k], r.expected_to[k]), "extraction returns the joint limits", "{}joint {}: [{}, {}] expected [{}, {}]\n{}", what, k + 1, p.from[k], p.to[k], r.expected_from[k], r.expected_to[k], r.xml);
+    }
+    ensure!(p.dof == 6, "dof = 6 when all six named joints exist", "{}dof = {}", what, p.dof);
+    Ok(())
+}
+
 fn call(xml: &str, names: &Option<[String; 6]>) -> Result<Result<rs_opw_kinematics::urdf::URDFParameters, String>, String> {
     let x = xml.to_string();
     match names {
@@ -260,7 +280,7 @@ impl Property for C20 {
     fn rule(&self) -> String {
         "documents rendered from OPW values (mm grid, arbitrary reals, zeros for a1/a2/b) in the supported layouts (c2 along z or x, b as y on joint 3, c3 on joint 5 or with a2 on joint 4 as x or y, c4 along x or z) x axis signs (axis omitted for +1) \
          x limit syntax (radians, ${radians(deg)} integer/decimal, none) x all joint declaration orders x nesting depth 0..3 (xacro:macro / group / xacro:if) x naming decorations (${prefix}, ${joint_prefix}, ${prefix}..${suffix}, alphabetic prefix+_, upper case, joint_aN, trailing punctuation) \
-         x unrelated fixed joints / links with visual origins / a second identical copy x explicit joint-name lists with arbitrary names; negative space: a missing joint, a conflicting duplicate (differing in origin, in axis direction only or in limits only), truncated XML, non-numeric origin; byte/token-level mutants and arbitrary bytes (plus the libFuzzer target urdf_bytes in the thorough tier). \
+         x unrelated fixed joints / links with visual origins / a second identical copy x explicit joint-name lists with arbitrary names (also two different robots in one document, extracted a, b, a); negative space: a missing joint, a conflicting duplicate (differing in origin, in axis direction only or in limits only), truncated XML, non-numeric origin; byte/token-level mutants and arbitrary bytes (plus the libFuzzer target urdf_bytes in the thorough tier). \
          Non-trivial: a valid document with a permuted order, a non-default layout or a decoration; every negative / mutated document."
             .into()
     }
@@ -278,6 +298,7 @@ impl Property for C20 {
         prop_oneof![
             5 => (spec_strategy(), crate::gen::joints_uniform()).prop_map(|(u, q)| Case::Valid { u, q }),
             2 => (spec_strategy(), 0u8..6, 0u8..6).prop_map(|(u, kind, which)| Case::Invalid { u, kind, which }),
+            1 => (spec_strategy(), spec_strategy()).prop_map(|(a, b)| Case::Cell { a, b }),
             4 => (spec_strategy(), prop::collection::vec((any::<u16>(), 0u8..6, any::<u8>()), 1..6)).prop_map(|(u, edits)| Case::Mutated { u, edits }),
             1 => prop::collection::vec(any::<u8>(), 0..300).prop_map(|data| Case::Bytes { data }),
         ]
@@ -289,19 +310,7 @@ impl Property for C20 {
                 let r = render(u);
                 let got = call(&r.xml, &r.names).map_err(|m| viol!("extraction never panics", "panic: {}\n{}", m, r.xml))?;
                 let p = got.map_err(|e| viol!("extraction succeeds for every robot description generated in the supported layouts", "from_urdf failed: {}\n{}", e, r.xml))?;
-                let g = [p.a1, p.a2, p.b, p.c1, p.c2, p.c3, p.c4];
-                let names = ["a1", "a2", "b", "c1", "c2", "c3", "c4"];
-                for k in 0..7 {
-                    let w = r.expected_lengths[k];
-                    ensure!((g[k] - w).abs() <= 1e-12 * (1.0 + w.abs()), "extraction returns the generating parameters", "{} = {} expected {}\n{}", names[k], g[k], w, r.xml);
-                }
-                ensure!(p.sign_corrections == u.signs, "extraction returns the axis-derived sign corrections", "{:?} expected {:?}\n{}", p.sign_corrections, u.signs, r.xml);
-                for k in 0..6 {
-                    // (1e-12 relative: the conversion of written degrees to radians is not promised to the last bit)
-                    let close = |a: f64, b: f64| (a - b).abs() <= 1e-12 * (1.0 + b.abs());
-                    ensure!(close(p.from[k], r.expected_from[k]) && close(p.to[k], r.expected_to[k]), "extraction returns the joint limits", "joint {}: [{}, {}] expected [{}, {}]\n{}", k + 1, p.from[k], p.to[k], r.expected_from[k], r.expected_to[k], r.xml);
-                }
-                ensure!(p.dof == 6, "dof = 6 when all six named joints exist", "dof = {}", p.dof);
+                verify_extraction(&p, &r, u, "")?;
                 // to_robot / constraints / parameters consistent
                 let offsets = [0.0, 0.1, -0.2, 0.0, 0.3, 0.0];
                 let params = p.parameters(&offsets);
@@ -351,6 +360,41 @@ impl Property for C20 {
                 if nontriv {
                     ctx.nontrivial();
                 }
+                Ok(())
+            }
+            Case::Cell { a, b } => {
+                // two different robots in one document, told apart by explicit joint-name lists only
+                let mut ua = a.clone();
+                let mut ub = b.clone();
+                ua.explicit_names = true;
+                ub.explicit_names = true;
+                ua.extras &= !4;
+                ub.extras &= !4;
+                let ra = render(&ua);
+                let mut rb = render(&ub);
+                // rename robot b's joints and links
+                let nb: [String; 6] = std::array::from_fn(|k| format!("{}_b", rb.names.as_ref().unwrap()[k]));
+                for k in 0..6 {
+                    rb.xml = rb.xml.replace(&format!("<joint name=\"{}\"", rb.names.as_ref().unwrap()[k]), &format!("<joint name=\"{}\"", nb[k]));
+                }
+                rb.xml = rb.xml.replace("link_", "b_link_").replace("base_link-base", "b_base_link-base").replace("b_link_6-tool0", "b_link6-tool0");
+                rb.names = Some(nb);
+                let body_b = {
+                    let s0 = rb.xml.find("<!-- generated OPW robot -->\n").map(|k| k + 29).unwrap();
+                    let e0 = rb.xml.rfind("</robot>").unwrap();
+                    rb.xml[s0..e0].to_string()
+                };
+                let xml = ra.xml.replace("</robot>", &format!("{}</robot>", body_b));
+                let (mut ra, mut rb) = (ra, rb);
+                ra.xml = xml.clone();
+                rb.xml = xml.clone();
+                for (round, (r, u)) in [(&ra, &ua), (&rb, &ub), (&ra, &ua)].iter().enumerate() {
+                    let got = call(&xml, &r.names).map_err(|m| viol!("extraction never panics", "panic: {}\n{}", m, xml))?;
+                    let p = got.map_err(|e| viol!("extraction succeeds for every robot description generated in the supported layouts", "two robots in one document, call {}: from_urdf failed: {}\n{}", round + 1, e, xml))?;
+                    verify_extraction(&p, r, u, &format!("two robots in one document, call {} ({}): ", round + 1, if round == 1 { "robot b" } else { "robot a" }))?;
+                }
+                ctx.class("valid:two robots in one document told apart by explicit names (a, b, a)");
+                ctx.nontrivial();
                 Ok(())
             }
             Case::Invalid { u, kind, which } => {
